@@ -10,7 +10,11 @@ from harness import chars, core, drivers, shelldrv, tlc
 
 ALPH = ['a', '<', '&', '"', '>', ' ', '\t', 'b', "'", ';']
 MSG = 'MSG%d <b>&amp;"quot" \'x\''
-SUGG = '</span><td>"&lt;%d'
+SUGGS = ['</span><td>"&lt;%d', '"q%d"', "it's>%d", 'two words %d', '&amp;%d']
+
+
+def sugg(k, salt=0):
+    return SUGGS[(k + salt) % len(SUGGS)] % k
 
 
 def build_text(lens, variant):
@@ -41,7 +45,7 @@ def parse(out_html):
                 t = title.replace(' ', ' ')
                 m = re.search(r'MSG(\d+)', t)
                 mid = int(m.group(1)) if m else 0
-                if not m or (MSG % mid) not in t or (SUGG % mid) not in t:
+                if not m or (MSG % mid) not in t or not any((s_ % mid) in t for s_ in SUGGS):
                     titles_ok = False
                 hl.append({'row': len(rows), 'st': st, 'en': en, 'mid': mid})
     for tab in h.tables[1:]:
@@ -78,7 +82,7 @@ def drive(case):
         Cmd.context = int(1e8)
     ms = []
     for k, (b, n) in enumerate(case['matches'], 1):
-        ms.append({'offset': b, 'length': n, 'message': MSG % k, 'replacements': [{'value': SUGG % k}],
+        ms.append({'offset': b, 'length': n, 'message': MSG % k, 'replacements': [{'value': sugg(k, case['id'] if isinstance(case['id'], int) else 0)}],
                    'context': {'text': tex[max(0, b - 3):b + n + 3].replace('\n', ' '), 'offset': min(b, 3), 'length': n},
                    'rule': {'id': 'R<%d>"' % k, 'urls': [{'value': 'http://x/?a=1&b=%d' % k}]}})
     rec = {'id': case['id'], 'src': chars.enc(tex), 'matches': [list(m) for m in case['matches']], 'neg': case['ctx'] < 0, 'ctx': case['ctx'],
